@@ -55,12 +55,16 @@ class _MultitaskGaussianLikelihoodBase(_GaussianLikelihoodBase):
             self.register_parameter("task_noise_corr", torch.nn.Parameter(task_noise_corr))
             if task_correlation_prior is not None:
                 self.register_prior(
-                    "MultitaskErrorCorrelationPrior", task_correlation_prior, lambda m: m._eval_corr_matrix()
+                    "MultitaskErrorCorrelationPrior", task_correlation_prior, self._corr_matrix_param
                 )
         elif task_correlation_prior is not None:
             raise ValueError("Can only specify task_correlation_prior if rank>0")
         self.num_tasks = num_tasks
         self.rank = rank
+
+    def _corr_matrix_param(self, m):
+        # Used by the priors registered in __init__ (a method rather than a lambda: the module stays picklable)
+        return m._eval_corr_matrix()
 
     def _eval_corr_matrix(self) -> Tensor:
         tnc = self.task_noise_corr
@@ -219,7 +223,7 @@ class MultitaskGaussianLikelihood(_MultitaskGaussianLikelihoodBase):
                 )
                 self.register_constraint("raw_task_noises", noise_constraint)
                 if noise_prior is not None:
-                    self.register_prior("raw_task_noises_prior", noise_prior, lambda m: m.task_noises)
+                    self.register_prior("raw_task_noises_prior", noise_prior, self._task_noises_param)
                 if task_prior is not None:
                     raise RuntimeError("Cannot set a `task_prior` if rank=0")
             else:
@@ -228,7 +232,7 @@ class MultitaskGaussianLikelihood(_MultitaskGaussianLikelihoodBase):
                     parameter=torch.nn.Parameter(torch.randn(*batch_shape, num_tasks, rank)),
                 )
                 if task_prior is not None:
-                    self.register_prior("MultitaskErrorCovariancePrior", task_prior, lambda m: m._eval_covar_matrix())
+                    self.register_prior("MultitaskErrorCovariancePrior", task_prior, self._covar_matrix_param)
         self.num_tasks = num_tasks
         self.rank = rank
 
@@ -236,10 +240,22 @@ class MultitaskGaussianLikelihood(_MultitaskGaussianLikelihoodBase):
             self.register_parameter(name="raw_noise", parameter=torch.nn.Parameter(torch.zeros(*batch_shape, 1)))
             self.register_constraint("raw_noise", noise_constraint)
             if noise_prior is not None:
-                self.register_prior("raw_noise_prior", noise_prior, lambda m: m.noise)
+                self.register_prior("raw_noise_prior", noise_prior, self._noise_param)
 
         self.has_global_noise = has_global_noise
         self.has_task_noise = has_task_noise
+
+    def _task_noises_param(self, m):
+        # Used by the priors registered in __init__ (a method rather than a lambda: the module stays picklable)
+        return m.task_noises
+
+    def _covar_matrix_param(self, m):
+        # Used by the priors registered in __init__ (a method rather than a lambda: the module stays picklable)
+        return m._eval_covar_matrix()
+
+    def _noise_param(self, m):
+        # Used by the priors registered in __init__ (a method rather than a lambda: the module stays picklable)
+        return m.noise
 
     @property
     def noise(self) -> Optional[Tensor]:
